@@ -114,10 +114,14 @@ func (P *Prog) buildQuery(o *Obligation) (asserts []*Term, stats string) {
 	if len(o.Lazy) > 0 {
 		done := map[string]bool{}
 		total := 0
-		for round := 0; round < 2; round++ {
+		lazies := append([]*LazyForall{}, o.Lazy...)
+		lazySink = &lazies
+		defer func() { lazySink = nil }()
+		for round := 0; round < 3; round++ {
 			order := collect(asserts)
 			var added []*Term
-			for li, lf := range o.Lazy {
+			for li := 0; li < len(lazies); li++ {
+				lf := lazies[li]
 				cands := indexCandidates(order, lf.Sort)
 				if len(cands) > maxInstCandidates {
 					// prefer older (smaller) terms
@@ -196,7 +200,7 @@ func (P *Prog) buildQuery(o *Obligation) (asserts []*Term, stats string) {
 	order := collect(asserts)
 	asserts = append(asserts, P.strFacts(order)...)
 	// reserved references for immutable global objects
-	asserts = append(asserts, ULt(BVi(1024, 32), Var("alloc@0", RefSort)))
+	asserts = append(asserts, ULt(BVi(1024, 32), Var("alloc@0", RefSort)), ULe(Var("alloc@0", RefSort), BVu(0x00fffff0, 32)))
 	return asserts, stats
 }
 
